@@ -5,7 +5,7 @@ Space: LineScan / GridScan with start in {(0,0), (1.5,-2)}, 3 end points, gpts i
 {whole pixels, half pixel, generic, outside the cell} on 4 grids with aberrations.
 Oracle: number of positions = gpts; positions[i] = start + i * sampling * direction; the last position is the end point with
 endpoint and one step short of it otherwise; the axis metadata coordinates are the same numbers; probe(r) = np.roll(probe(0))
-for whole pixels and = fft_shift(probe(0), r / sampling) otherwise; the same for every position of 3 GridScans built eagerly
+for whole pixels and = fft_shift(probe(0), r / sampling) otherwise; the same for every position of 3 GridScans and 3 LineScans built eagerly
 and lazily with max_batch in {1, 2, 3, 7, 10, auto} (equal, unequal and single-position blocks).
 """
 import itertools
@@ -314,4 +314,22 @@ def run_case(c):
                 i = np.unravel_index(int(np.argmax(np.abs(got - want).max(axis=(-2, -1)))), gp)
                 bad("probe/gridscan/%s" % ("eager" if mode == "eager" else "lazy"), "probe.build(GridScan gpts %r endpoint %r, max_batch=%r): the probe at scan index %r differs from the origin probe shifted to %r by %.3g"
                     % (gp, ep, mode, tuple(int(x) for x in i), pos[i].tolist(), e))
+    # ... and through a LineScan (with and without its end point) split into equal, unequal and single-position blocks
+    for n, ep in ((9, True), (7, False), (5, True)):
+        scan = abtem.LineScan(start=(dx, 0.5 * dy), end=(dx * (1 + 1.5 * n), dy * 3.25), gpts=n, endpoint=ep)
+        pos = np.asarray(scan.get_positions(), float)
+        want = np.stack([np.asarray(fft_shift(origin, np.array([pos[i, 0] / dx, pos[i, 1] / dy]))) for i in range(n)])
+        for mode in ("eager", 1, 2, 4, "auto"):
+            built = probe.build(scan, lazy=False) if mode == "eager" else probe.build(scan, lazy=True, max_batch=mode).compute()
+            got = np.asarray(built.array)
+            tr += 1
+            if got.shape != want.shape:
+                bad("probe/linescan-shape", "probe.build(LineScan %r, %r) has shape %r" % (n, mode, got.shape))
+                continue
+            e = float(np.abs(got - want).max()) / float(np.abs(origin).max())
+            worst = max(worst, e / 2e-5)
+            if not e <= 2e-5:
+                i = int(np.argmax(np.abs(got - want).max(axis=(-2, -1))))
+                bad("probe/linescan/%s" % ("eager" if mode == "eager" else "lazy"), "probe.build(LineScan gpts %r endpoint %r, max_batch=%r): the probe at scan index %d differs from the origin probe shifted to %r by %.3g"
+                    % (n, ep, mode, i, pos[i].tolist(), e))
     return {"viol": viol, "obs": "probes", "nt": True, "tr": tr, "err": worst}
